@@ -25,7 +25,7 @@ RULE = (
     "non-trivial = >=1 fault applied or >=2 commands; distinct = digest(command kinds, plan class)"
 )
 ASSUMPTIONS = ["localhost tcp; finite loss (at most 3 consecutive drops per payload / confirmation)"]
-REQUIRED_COUNTERS = ["scenarios", "transfers", "fetches", "purges", "announcements", "payload-dropped", "confirmation-dropped", "payload-duplicated"]
+REQUIRED_COUNTERS = ["scenarios_judged", "scenarios", "transfers", "fetches", "purges", "announcements", "payload-dropped", "confirmation-dropped", "payload-duplicated"]
 
 
 def gen_scenario(rng, shard_no, slot, index):
@@ -58,7 +58,7 @@ def gen_scenario(rng, shard_no, slot, index):
         src = d["preload"][0]
         if (d["task"], src) in purged:
             continue
-        k = rng.choice(["transmit", "transmit", "transmit", "fetch", "transmit_twice", "transmit_to_holder", "transmit_then_target_purge", "target_purge_then_payload", "source_purge_after_accept"])
+        k = rng.choice(["transmit", "transmit", "transmit", "fetch", "transmit_twice", "transmit_to_holder", "transmit_then_target_purge", "target_purge_then_payload", "source_purge_after_accept", "source_purge_races_queued_sends"])
         others = [h for h in ids if h != src]
         dst = rng.choice(others)
         if k == "transmit":
@@ -88,6 +88,16 @@ def gen_scenario(rng, shard_no, slot, index):
             if plan["p_drop_payload"] > 0 or len(d["preload"]) > 1:
                 continue
             commands.append({"op": "transmit", "ds": d["task"], "src": src, "dst": dst, "wait": 0.15})
+            commands.append({"op": "purge", "ds": d["task"], "host": src, "wait": 0.1})
+            purged.add((d["task"], src))
+        elif k == "source_purge_races_queued_sends":
+            # "a purge that races with a transfer waits": more sends of one dataset than the data server has sender threads, the
+            # purge of that dataset at the source right behind them (no payload loss: a lost payload of a purged dataset is
+            # legitimately given up)
+            if plan["p_drop_payload"] > 0 or len(d["preload"]) > 1 or any(c["ds"] == d["task"] for c in commands):
+                continue
+            for j in range(rng.randint(3, 4)):
+                commands.append({"op": "transmit", "ds": d["task"], "src": src, "dst": others[j % len(others)], "wait": 0})
             commands.append({"op": "purge", "ds": d["task"], "host": src, "wait": 0.1})
             purged.add((d["task"], src))
         kinds.append(k)
@@ -150,15 +160,24 @@ def run_scenario(col: Collector, rng, shard_no, slot, index):
     for ln in out.splitlines():
         if ln.startswith("RESULT "):
             res = json.loads(ln[7:])
-    wit = {"data_server_exits": (res or {}).get("data_server_exits"), "plan": spec["plan"], "plan_class": plan_class, "hosts": [h["id"] for h in spec["hosts"]], "datasets": spec["datasets"], "commands": spec["commands"],
+    wit = {"events": (res or {}).get("events"), "stacks": (res or {}).get("stacks"), "children_alive": (res or {}).get("children_alive"), "data_server_exits": (res or {}).get("data_server_exits"), "plan": spec["plan"], "plan_class": plan_class, "hosts": [h["id"] for h in spec["hosts"]], "datasets": spec["datasets"], "commands": spec["commands"],
            "stats": (res or {}).get("stats")}
     st = (res or {}).get("stats") or {}
     faults = sum(v for k, v in st.items() if k.endswith(("dropped", "duplicated", "delayed")))
     col.case(shape=digest(plan_class, kinds, len(spec["hosts"])), nontrivial=faults >= 1 or len(spec["commands"]) >= 2, sample=wit)
     col.count("scenarios")
+    if res is not None and res.get("outcome") == "inconclusive":
+        # the data servers were still retransmitting at the wall-clock cap (starved machine): no verdict for this scenario; it is
+        # excluded from the evaluated set and counted, never folded into 'held'
+        col.observe("scenario_without_verdict_servers_still_busy_at_cap")
+        col.count("scenarios_excluded_still_busy_at_cap")
+        return
     if res is None or res.get("outcome") != "ok":
         col.not_reached(f"scenario produced no result: {(res or {}).get('error', 'timeout')[-300:]}")
         return
+    col.count("scenarios_judged")
+    for n_ in res.get("notes", []):
+        col.observe(n_)
     for k, v in st.items():
         col.count(k, v)
     seen = set()
